@@ -28,6 +28,9 @@ func c01(c *Ctx) {
 	c01R4(c)
 	valsetCacheRule(c, "R5")
 	walSkipRule(c, "R6")
+	shared(c, "C04", c04R3, c04R4, c04R5)
+	shared(c, "C15", func(c *Ctx) { verifyCommitRule(c, "R7") })
+	shared(c, "C03", c03R3)
 }
 
 // quorumRule is shared by C01-R1, C14-R2 and C15.
